@@ -156,6 +156,10 @@ pub mod rete;
 pub mod streaming;
 /// Core type definitions for values, operators, and actions
 pub mod types;
+/// Verification seams (only with `--cfg rre_verif`)
+#[cfg(rre_verif)]
+#[allow(missing_docs)]
+pub mod verif_hooks;
 
 // Re-export core types for easy access
 pub use errors::{Result, RuleEngineError};
